@@ -135,6 +135,13 @@ impl Ctx {
             }
             outs.extend(o);
         }
+        // the same questions after shrink_to_fit (a performance-only call; the end of every load calls it too)
+        if guard(|| store.shrink_to_fit(true)).is_none() {
+            outs.push(l(vec![a(-1)]));
+        }
+        for h in 0..store.datasets_len() {
+            outs.extend(observe_set(&store, h, req.nth(1).list(), req.nth(2).list()));
+        }
         let _ = value_sx;
         (req.clone(), outs, nt)
     }
@@ -194,5 +201,5 @@ pub fn generate(out: &mut Out, tier: &str, seed: u64) {
     }
 }
 
-pub const RULE: &str = "seeded random histories as in C01 with typed values (null, bool, int -3..3, float on a 0.5 grid, strings incl. empty / non-BMP / numerals / 'true' / 'ON', nested lists), data with and without ids through datasets and through annotations, removals of data and keys (strict and not); after the history, per dataset: keys unique and id-less data never a second copy of an existing (key,value) (scan through the API), 24 probes (any key / key by id / key by handle, incl. unknown and removed keys) x random operator (all 21 variants incl. Not/And/Or nested to depth 2, Equals against bool/int/float/string, HasElement*) through find_data and test_data, and data_by_value for 3 keys x 6 values. One evaluation = one dataset record.";
+pub const RULE: &str = "seeded random histories as in C01 with typed values (null, bool, int -3..3, float on a 0.5 grid, strings incl. empty / non-BMP / numerals / 'true' / 'ON', nested lists), data with and without ids through datasets and through annotations, removals of data and keys (strict and not); after the history, per dataset: keys unique and id-less data never a second copy of an existing (key,value) (scan through the API), 24 probes (any key / key by id / key by handle, incl. unknown and removed keys) x random operator (all 21 variants incl. Not/And/Or nested to depth 2, Equals against bool/int/float/string, HasElement*) through find_data and test_data, and data_by_value for 3 keys x 6 values; then AnnotationStore::shrink_to_fit(true) and all of it again. One evaluation = one dataset record.";
 pub const EXHAUSTIVE: bool = false;
